@@ -813,6 +813,16 @@ def c04_tier_b_run(seed, prop, i, fault_free):
     """Stop-the-world inside real executables: threads entering and leaving natives, starting,
     exiting, blocking in the wait table and at barriers while collections are requested by
     several threads at once (sync and mtheap scripts); M-stw armed in every operation."""
+    if i % 6 == 5:
+        # the out-of-memory report, the third kind of stop-the-world operation: one thread
+        # exhausts the heap while 1-4 bystander threads run, allocate and sit in natives
+        r = ex_run(seed, prop, i, fault_free, collectors=("copy", "sweep", "swiper"))
+        if r["argv"][0] != 1 or r["argv"][2] == 0:
+            wl = tb.stream(seed, prop, i, "oom")
+            r["argv"] = [1, wl.choice([0, 1]), wl.choice([1, 2, 4]), wl.choice([0, 2, 3, 9]), wl.choice([0, 1, 100, 1000, 4093, 8192, 40000])]
+            r["expect"] = {"alternatives": mx.expected(r["argv"], r["tags"]["heap_mb"] << 20, r["exe"][1])}
+            r["tags"].update({"mode": 1, "where": r["argv"][1], "bystanders": r["argv"][2]})
+        return r
     if i % 2 == 0:
         r = sync_run(seed, prop, i, fault_free)
     else:
@@ -825,6 +835,8 @@ def c04_tier_b_run(seed, prop, i, fault_free):
 
 
 def c04_expect(argv, run):
+    if run["exe"][0] == "exhaust":
+        return ex_expect(argv, run)
     e = dict(run["expect"])
     e["stdout"] = ms.expected(argv) if run["exe"][0] == "sync" else mm.expected(argv)
     return e
@@ -845,7 +857,7 @@ def c04(tier):
               "Runtime built with the zero collector and an empty Program"],
         assumptions=["sequentially consistent interleavings only (shuttle); the protocol uses SeqCst on the state byte"])
     b = run_tier_b_property(
-        "C04", tier, quick_s=35, thorough_s=600, drivers=["sync", "mtheap"], collectors=["copy", "sweep", "swiper"], codegens=["cannon", "boots"],
-        make_run=c04_tier_b_run, shrink=_ShrinkByDriver({"sync": sync_shrink, "mtheap": mt_shrink, "heapgraph": hg_shrink}), expect_fn=c04_expect, write=False, key_fn=heap_key,
+        "C04", tier, quick_s=35, thorough_s=600, drivers=["sync", "mtheap", "exhaust"], collectors=["copy", "sweep", "swiper"], codegens=["cannon", "boots"],
+        make_run=c04_tier_b_run, shrink=_ShrinkByDriver({"sync": sync_shrink, "mtheap": mt_shrink, "heapgraph": hg_shrink, "exhaust": ex_shrink}), expect_fn=c04_expect, write=False, key_fn=heap_key,
         level_text="M-stw monitor (every other registered thread Parked / ParkedSafepointRequested / Safepoint, runtime state Safepoint, one operation at a time, no managed allocation entering the runtime during the operation) armed in every collection of real multi-threaded executables under seeded schedules and injected collections; deadlock detection = nobody left out / no lost wake-up")
     return combine("C04", tier, [a, b], t0, ASSUME_B)
